@@ -168,12 +168,19 @@ DeepCopy ==
   /\ Log([a |-> "DeepCopy"])
   /\ UNCHANGED <<arch, mods, ctx, hooks, modes, saved, pc>>
 
+\* calls of the tensor-level library (quantize_weight, quantize_activation, absmax_scale) on float tensors:
+\* read-only, whether or not a calibration context is open
+LibCall ==
+  /\ pc = "quantized" /\ Bound
+  /\ Log([a |-> "LibCall"])
+  /\ UNCHANGED <<arch, mods, ctx, hooks, modes, saved, pc>>
+
 ActionsOf(f) ==
   CASE f = "calib"  -> {"Quantize", "EnterCalib", "CalibBatch", "ExitCalib", "Forward", "RaiseIn"}
     [] f = "serial" -> {"Quantize", "EnterCalib", "CalibBatch", "ExitCalib", "Freeze", "Save", "Load", "Forward"}
     [] f = "freeze" -> {"Quantize", "EnterCalib", "CalibBatch", "ExitCalib", "Freeze", "DeepCopy", "Forward"}
     [] f = "train"  -> {"Quantize", "OptStep", "Forward", "Freeze"}
-    [] OTHER        -> {"Quantize", "EnterCalib", "CalibBatch", "ExitCalib", "Forward", "RaiseIn", "Freeze", "Save", "Load", "DeepCopy", "OptStep"}
+    [] OTHER        -> {"Quantize", "EnterCalib", "CalibBatch", "ExitCalib", "Forward", "RaiseIn", "Freeze", "Save", "Load", "DeepCopy", "OptStep", "LibCall"}
 On(a) == a \in ActionsOf(Focus)
 
 ActQuantize   == \E w \in WQs, a \in AQs, f \in Filters : Quantize(w, a, f)
@@ -185,11 +192,12 @@ ActExitCalib  == On("ExitCalib") /\ ExitCalib
 ActFreeze     == On("Freeze") /\ Freeze
 ActOptStep    == On("OptStep") /\ OptStep
 ActDeepCopy   == On("DeepCopy") /\ DeepCopy
+ActLibCall    == On("LibCall") /\ LibCall
 ActSave       == On("Save") /\ \E s \in {"none", "pickle", "weights_only", "safetensors"} : Save(s)
 ActLoad       == On("Load") /\ \E t \in {"default", "same", "requantize"} : Load(t)
 
 Next == ActQuantize \/ ActForward \/ ActEnterCalib \/ ActCalibBatch \/ ActRaiseIn \/ ActExitCalib
-        \/ ActFreeze \/ ActOptStep \/ ActDeepCopy \/ ActSave \/ ActLoad
+        \/ ActFreeze \/ ActOptStep \/ ActDeepCopy \/ ActSave \/ ActLoad \/ ActLibCall
 
 (* ---- abstract properties ------------------------------------------------------------------------------ *)
 \* C08: exactly the eligible, selected modules are swapped; the others are untouched
@@ -215,7 +223,7 @@ EmaLawStep ==
                 /\ (~FedQuantized(i)) => mods'[i].insc = Append(mods[i].insc, <<ctx[1].momentum, b>>)]_vars
 \* C13: the registries mirror the open contexts, so leaving every context restores them
 CalibrationScoped == Len(hooks) = Len(ctx) /\ Len(modes) = Len(ctx) /\ (ctx = <<>> => (hooks = <<>> /\ modes = <<>>))
-InferencePure == [][(Len(prog') = Len(prog) + 1 /\ prog'[Len(prog')].a \in {"Forward", "DeepCopy", "Save"}) => mods' = mods]_vars
+InferencePure == [][(Len(prog') = Len(prog) + 1 /\ prog'[Len(prog')].a \in {"Forward", "DeepCopy", "Save", "LibCall"}) => mods' = mods]_vars
 \* C10: a load restores the denotation that was saved
 RoundTripDenotation ==
   [][(Len(prog') = Len(prog) + 1 /\ prog'[Len(prog')].a = "Load") => mods' = saved.mods]_vars
